@@ -12,8 +12,10 @@ PAIR = ("struct", "Pair", (("a", U256), ("b", U256)))
 
 MAPT = ("map", U256, U256)
 # storage indices
-CTR, SV, ARR, DYN, MATV, FLAG, PV, MP, BAL = range(9)
+B40 = ("bytes", 40)
+CTR, SV, ARR, DYN, MATV, FLAG, PV, MP, A3, PS, DM, BS, BM, BAL = range(14)
 STO = [("ctr", U256), ("sv", U256), ("arr", ARR4), ("dyn", DARR), ("mat", MAT), ("flg", BOOL), ("pv", PAIR), ("mp", MAPT),
+       ("a3", ARR3), ("ps", ("sarr", PAIR, 3)), ("dm", ("sarr", DARR, 3)), ("bs", B40), ("bm", ("map", U256, B40)),
        ("$balance", U256)]     # $balance: the contract's ether balance, a reserved cell of the reference program's state
 TV = 0                          # transient index (declared only in programs that contain a transient test)
 
@@ -97,6 +99,14 @@ class Builder:
         eff("wmap", 713, [S("assign", base=bsto(MP), path=[("i", c(2))], e=c(77), decl=None)])
         eff("wpv", 714, [S("assign", base=bsto(PV), path=[("f", "a", 0)], e=c(89), decl=None)])
         eff("pay", 715, [S("send", hid=BAL, e=c(10))])
+        # wc(): overwrites the multi-word variables read by the complex-typed part of the matrix
+        eff("wc", 716, [S("assign", base=bsto(A3), path=[], e=E("list", ARR3, elems=[c(7), c(8), c(9)]), decl=None),
+                        S("assign", base=bsto(PV), path=[], e=E("list", PAIR, elems=[c(70), c(80)]), decl=None),
+                        S("assign", base=bsto(DYN), path=[], e=E("list", DARR, elems=[c(6), c(6), c(6)]), decl=None),
+                        S("assign", base=bsto(BS), path=[], e=E("const", ("bytes", 7), v=b"changed"), decl=None)])
+        # identity callees taking a multi-word first argument and a word
+        for nm, ty in (("ida", ARR3), ("idp", PAIR), ("idd", DARR), ("idb", B40)):
+            self.add_int(nm, [("a0", ty), ("a1", U256)], ty, [log_tag(720), S("return", e=E("var", ty, name="a0", id=0))])
         self.n_ext = 0
 
     def add_int(self, name, params, ret, body):
@@ -148,6 +158,29 @@ class Builder:
             "bal": ([], E("balance", U256, hid=BAL), "pay", 100, 100),
         }[rd]
 
+    # multi-word reads: (setup, read expression, container indexed by the effectful call, identity callee)
+    def rve_cplx(self, ctxk, rd):
+        setup, R, cont, idf = {
+            "carr": ([S("assign", base=bsto(A3), path=[], e=E("list", ARR3, elems=[c(1), c(2), c(3)]), decl=None)], sto(A3), MATV, "ida"),
+            "cstruct": ([S("assign", base=bsto(PV), path=[], e=E("list", PAIR, elems=[c(1), c(2)]), decl=None)], sto(PV), PS, "idp"),
+            "cdyn": ([S("assign", base=bsto(DYN), path=[], e=E("list", DARR, elems=[c(1), c(2)]), decl=None)], sto(DYN), DM, "idd"),
+            "cbytes": ([S("assign", base=bsto(BS), path=[], e=E("const", ("bytes", 4), v=b"orig"), decl=None)], sto(BS), BM, "idb"),
+        }[rd]
+        ty = R.ty
+        F = self.call("wc")
+        if ctxk == "cassign":      # container[wc()] = <multi-word read>: the value is copied before wc() runs
+            body = setup + [S("assign", base=bsto(cont), path=[("i", F)], e=R, decl=None),
+                            S("return", e=E("idx", ty, a=sto(cont), i=c(1)))]
+        elif ctxk == "ccallarg":   # f(<multi-word read>, wc())
+            body = setup + [S("return", e=self.call(idf, R, F))]
+        elif ctxk == "clocal":     # z: T = read; wc(); return z  (copy, not alias)
+            body = setup + [S("assign", base=("loc", "z", 0), path=[], e=R, decl=ty), S("expr", e=F),
+                            S("return", e=E("var", ty, name="z", id=0))]
+        else:
+            raise ValueError(ctxk)
+        self.add_test(f"rve_{ctxk}_{rd}", ty, body)
+
+    RVE_CPLX = [f"rve_{cx}_{rd}" for cx in ("cassign", "ccallarg", "clocal") for rd in ("carr", "cstruct", "cdyn", "cbytes")]
     RVE_READS = ["sv", "tv", "len", "lenp", "map", "arr", "dynel", "fld", "bal"]
     RVE_CONTEXTS = ["add", "sub", "mul", "div", "mod", "cmp", "bit", "and", "or", "max", "min", "ifexp", "list", "struct",
                     "callargs", "subscript", "assign_rhs", "aug"]
@@ -510,7 +543,10 @@ def uses_tra(pos):
 def _emit(b, pos):
     if pos.startswith("rve_"):
         _, cx, rd = pos.split("_", 2) if not pos.startswith("rve_assign_rhs") else ("rve", "assign_rhs", pos[len("rve_assign_rhs_"):])
-        b.rve(cx, rd)
+        if rd.startswith("c") and cx.startswith("c"):
+            b.rve_cplx(cx, rd)
+        else:
+            b.rve(cx, rd)
     else:
         getattr(b, "pos_" + pos)()
 
